@@ -108,7 +108,7 @@ def self_lookup_columns(snap):
         for k in re.findall(r'\b([A-Za-z_][A-Za-z0-9_]*)\s*=(?!=)', args):
           if k == cid:
             out.add((tid, cid))
-          elif k in fcols and re.search(r'(\$|rec\.)%s\b' % re.escape(cid), fcols[k]):
+          elif k in fcols and re.search(r'(\$|\.)%s\b' % re.escape(cid), fcols[k]):
             out.add((tid, cid))
   return out
 
